@@ -165,3 +165,21 @@ package util
 //@
 //@ func CompliesStringer(src) (r)
 //@   ensures {C04,C01} r == compliesStringer(src)
+
+// ---- iterators (C04, C05) ---------------------------------------------------------------------------------------------
+
+//@ spec structOf(t types.Type) *types.Struct = as(underlying(derefT(t)), *types.Struct)
+//@ spec nFieldsOf(t types.Type) int = cond(isStructT(derefT(t)), numFields(structOf(t)), 0)
+//@ spec namedOf(t types.Type) *types.Named = as(derefT(t), *types.Named)
+//@ spec nMethodsOf(t types.Type) int = cond(is(derefT(t), *types.Named), numMethods(namedOf(t)), 0)
+//@
+//@ func IterateFields(t, cb)
+//@   requires t != nil
+//@   use T0(derefT(t)), T0(underlying(derefT(t)))
+//@   iterates cb count nFieldsOf(t) elem fieldAt(structOf(t), $i)
+//@   loop 1 invariant 0 <= i && $it.next == i && !$it.stopped
+//@ func IterateMethods(t, cb)
+//@   requires t != nil
+//@   use T0(derefT(t))
+//@   iterates cb count nMethodsOf(t) elem methodAt(namedOf(t), $i)
+//@   loop 1 invariant 0 <= i && $it.next == i && !$it.stopped
